@@ -36,7 +36,7 @@ DESCRIBE = {
     "assumptions": ["burn-in fraction 1 keeps no draw and has no defined mean: excluded", "mode: the returned draw must be a kept draw whose loss is within 1e-6 relative of the minimum recomputed in float64 "
                     "(leaspy sums the regularities in a hash-seed dependent order)", "non-worsening: f(returned) <= f(first evaluated point) + 1e-6 (1 + |f|)"],
 }
-KINDS = ["logistic_diag", "logistic_scalar", "logistic_uni", "logistic_diag_nosrc", "linear_diag", "linear_uni", "shared_speed", "joint_uni", "joint_multi", "logistic_binary"]
+KINDS = ["logistic_diag", "logistic_scalar", "logistic_uni", "logistic_diag_nosrc", "linear_diag", "linear_uni", "shared_speed", "joint_uni", "joint_multi", "joint_ev2", "logistic_binary"]
 
 
 def make_plan(seed: int, tier: str) -> dict:
